@@ -245,6 +245,12 @@ fn case_ts_write(ctx: &mut Ctx, unit: TimeUnit, utc: bool, f: (i64, i64, i64, i6
     let desc = json!({"kind": "timestamp_write", "unit": unit.to_string(), "utc": utc, "text": text, "impl": out_json(&out)});
     let idx = ctx.add_case(coq, desc, true);
     if let Out::Panic(p) = &out { ctx.fail(idx, "panic", format!("Timestamp({}) writing {:?} panics: {}", unit, text, p)); }
+    // referee for RFC 3339 texts: the stored integer is chrono's instant for the text, in the column's unit
+    if utc { if let (Ok(x), Out::Ok(v)) = (chrono::DateTime::parse_from_rfc3339(text), &out) {
+        let x = x.with_timezone(&chrono::Utc);
+        let want: Option<i128> = match unit { TimeUnit::Second => Some(x.timestamp() as i128), TimeUnit::Millisecond => Some(x.timestamp_millis() as i128), TimeUnit::Microsecond => Some(x.timestamp_micros() as i128), TimeUnit::Nanosecond => x.timestamp_nanos_opt().map(|n| n as i128) };
+        if let Some(w) = want { if w != *v as i128 { ctx.fail(idx, "chrono_disagrees", format!("Timestamp({}, UTC) written from {:?} stores {} but the instant is {}", unit, text, v, w)); } }
+    } }
 }
 
 fn case_read(ctx: &mut Ctx, dt: DataType, v: i64, label: &str) {
@@ -306,6 +312,20 @@ fn temporal_cases(ctx: &mut Ctx) {
                 let ds = date_str(&mut rng, y, m, d);
                 let text = if utc { format!("{}{}{}{}", ds, if rng.chance(3, 4) { "T" } else { " " }, tt, if rng.chance(1, 2) { "Z" } else { "+00:00" }) } else { format!("{}T{}", ds, tt) };
                 case_ts_write(ctx, *rng.pick(&UNITS), utc, (y, m, d, h, mi, s, nanos), &text);
+                // the same instant written with a NON-ZERO offset into a UTC column: the stored integer is that of the instant, not of
+                // the local wall clock (the text is the local time of the offset, computed with chrono from the UTC fields)
+                if utc && (1..=9999).contains(&y) {
+                    if let Some(ndt) = chrono::NaiveDate::from_ymd_opt(y as i32, m as u32, d as u32).and_then(|x| x.and_hms_nano_opt(h as u32, mi as u32, s as u32, nanos as u32)) {
+                        let off = *rng.pick(&[330i64, -480, 60, -1, 840, -720]);
+                        if let Some(local) = ndt.checked_add_signed(chrono::Duration::minutes(off)) {
+                            use chrono::Datelike;
+                            if (1..=9999).contains(&local.year()) {
+                                let text = format!("{}{}{:02}:{:02}", local.format("%Y-%m-%dT%H:%M:%S%.f"), if off < 0 { '-' } else { '+' }, off.abs() / 60, off.abs() % 60);
+                                case_ts_write(ctx, *rng.pick(&UNITS), true, (y, m, d, h, mi, s, nanos), &text);
+                            }
+                        }
+                    }
+                }
             }
             4 => { let v = match rng.below(3) { 0 => rng.range(-800_000, 3_000_000), 1 => rng.range(-100_000_000, 100_000_000), _ => rng.range(i32::MIN as i64, i32::MAX as i64) }; case_read(ctx, DataType::Date32, v, "date32"); }
             5 => { let v = match rng.below(3) { 0 => rng.range(-800_000, 3_000_000) * 86_400_000, 1 => rng.range(-100_000_000, 100_000_000) * 86_400_000 + if rng.chance(1, 4) { rng.range(-86_399_999, 86_399_999) } else { 0 }, _ => rng.next_u64() as i64 }; case_read(ctx, DataType::Date64, v, "date64"); }
